@@ -39,6 +39,27 @@ CHECKS['C07'] = dict(
          'stale state visible; fork() of a parent that has only imported tally is taken as a fresh process',
     design='§4 C07')
 
+CHECKS['C15'] = dict(
+    technique='TLA+ spec BudgetFS.tla: migrations as sequences of atomic file-system effects with Crash, torn-write, Fault and '
+              'Rerun actions; TLC checks NoContentLost / NeverEmptyWhileRulesExist / DoneSame on the repaired protocol and refutes '
+              'the pinned step order; the real CLI is interrupted at every effect (kill, torn write, OSError) under a harness-side '
+              'shim and the resulting trees + tally up classifications are validated by Trace_BudgetFS.tla',
+    category='model_checking',
+    text='Every prefix of every migration\'s effect sequence, with every single fault and torn write, is enumerated on the model by '
+         'TLC and on the real CLI by fault injection; the invariants are evaluated by TLC on the abstracted real outcomes.',
+    note='crash = kill after an effect the process completed (no fsync/reordering model); fixed concrete budget classes; the shim '
+         'counts open/write/close/move/mkdir/rename effects under the budget directory',
+    design='§4 C15')
+CHECKS['C20'] = dict(
+    technique='TLA+ spec Commands.tla: every command as an action on the budget directory; TLC checks the frame properties over '
+              'all histories of <= 3 commands from every initial budget class; TLC-simulated and random histories are executed with '
+              'the real CLI, compared byte-wise with the frame rules and validated (incl. predicted successor state) by '
+              'Trace_Commands.tla',
+    text='The write-set of every command is specified; TLC explores all short histories; hundreds of histories run against the real '
+         'CLI with content hashes of every file checked after each command and the abstract tree compared with the spec\'s prediction.',
+    note='old-layout budgets with fixed concrete contents per content class; non-interactive runs',
+    design='§4 C20')
+
 NOT_YET = {}
 
 
